@@ -229,7 +229,7 @@ CLAIMS = {
                   'correspondence on the guard log + marker non-interference oracle',
         ref='DESIGN.md §5 C05'),
     'C08': dict(
-        text='Lean 4 theorems about the interpreter model (Render.lean: namespace stack, lookups with auto-call, '
+        text='Let.render and With.render (their push / try / finally-pop frames) are TRANSLATED from /repo on every run (GenRender.letBlockGen / withBlockGen) and proved equal to the interpreter\'s let_ / with_ cases (gen_let_block_is_model, gen_with_block_is_model). Lean 4 theorems about the interpreter model (Render.lean: namespace stack, lookups with auto-call, '
              'expressions, every block tag, sub-template calls, dtml-return, exceptions, fault plans as part of the '
              'environment), proved by mutual induction on the evaluation for ALL programs, namespaces and fault plans: '
              'block_preserves_stack, render_preserves_stack, subtemplate_preserves_stack, lookup_preserves_stack, '
